@@ -59,7 +59,7 @@ ASSUMPTIONS = ["#if arithmetic as written in /verif/ref/csem.py (C11 6.10.1p4 + 
                "symbolic literals enter through a wrapper around the module-global cnum used by parse_expression; the "
                "uninstrumented concrete re-run of every path validates this"]
 SHIMS_USED = ["isinstance", "int", "bool"]
-JOB_TIMEOUT = {"quick": 170, "thorough": 1500}
+JOB_TIMEOUT = {"quick": 600, "thorough": 1700}
 TASKS_PER_CHILD = 4
 RULE = ("one evaluation = one batch job of #if templates; every template is one harness (all paths of the real preprocessor "
         "for all literal values); non-trivial = templates whose exploration had more than one path")
@@ -76,7 +76,8 @@ def pp_text(directive, etext):
 class PPIfHarness(Harness):
     shim_modules = ("ppci.lang.c.preprocessor",)
     max_paths = 400
-    prove_timeout_ms = 30000
+    prove_timeout_ms = 120000
+    timeout_ms = 60000
     mode = "c26"
 
     def __init__(self, directive, expr, W=None):
